@@ -70,7 +70,7 @@ void vp_harness(void) {
 }
 #endif
 
-#ifdef VP_H_PERIPHERAL
+#if defined(VP_H_PERIPHERAL) || defined(VP_H_PERIPHERAL_RANGE)
 /* bounded stand-in: the train has exactly 3 configured functions with arbitrary (distinct) bits 0..31 and ids "a","b","c" */
 void vp_harness(void) {
 	setup();
@@ -84,9 +84,18 @@ void vp_harness(void) {
 	/* functions that are not configured are off */
 	for (int k = 0; k < 32; k++) if (k != maps[0].bit && k != maps[1].bit && k != maps[2].bit) g_bit_state[k] = 0;
 	unsigned in_which; VP_IN(unsigned, in_which); __CPROVER_assume(in_which <= 3);
-	uint8_t in_state; VP_IN(uint8_t, in_state); __CPROVER_assume(in_state <= 1);
+	uint8_t in_state; VP_IN(uint8_t, in_state);
+#ifdef VP_H_PERIPHERAL_RANGE
+	__CPROVER_assume(in_state > 1);          /* quick unit: the documented range 0/1 is enforced before anything else (finding D18) */
+#else
+	__CPROVER_assume(in_state <= 1);
+#endif
 	const char *names[4] = {"a", "b", "c", "zz"};
 	int r = bidib_set_train_peripheral("t", names[in_which], in_state, "o");
+#ifdef VP_H_PERIPHERAL_RANGE
+	VP_COVER(in_state == 2 && in_which == 0 && g_train_known);
+	__CPROVER_assert(r == 1 && g_drive_calls == 0, "C09.peripheral.state_other_than_0_or_1_returns_1_and_submits_nothing");
+#else
 	VP_COVER(r == 0);
 	_Bool ok = in_which < 3 && g_train_known && g_board_known && g_board.connected && (g_board.unique_id.class_id & (1 << 4));
 	__CPROVER_assert(r == (ok ? 0 : 1), "C09.peripheral.returns_0_iff_known_train_function_and_connected_track_output");
@@ -100,5 +109,6 @@ void vp_harness(void) {
 		for (unsigned k = lo; k <= hi; k++) if (k != b) __CPROVER_assert(((f[k / 8] >> (k % 8)) & 1) == g_bit_state[k], "C09.peripheral.other_functions_of_the_group_preserved");
 		__CPROVER_assert(g_drive_params.speed == 0 && g_drive_addr.top == g_board.node_addr.top && g_drive_addr.sub == g_board.node_addr.sub && g_drive_addr.subsub == g_board.node_addr.subsub, "C09.peripheral.to_the_boards_current_node_address");
 	}
+#endif
 }
 #endif
